@@ -517,3 +517,8 @@ def percentile(ctx):
     ctx.ensure("root-function=variogram-fraction",
                ctx.eq(seen["fun"](x) * v, (mod.variogram(x) - n) - per * v))
     ctx.ensure("start=per*len/rescale", ctx.eq(seen["x0"], per * l / s))
+
+
+# dispatch inside exp_int / inc_gamma (the contract E(s, x) used above is only as good as it)
+from contracts import special_fn  # noqa: E402
+special_fn.register(P)
